@@ -481,6 +481,37 @@ func (env *Env) call(n *ECall) Val {
 		nm := n.Args[0].(*EIdent).Name
 		a := env.st.heapGet("ghost.gaugetotal."+nm, ArrSort(SInt))
 		return intVal(Select(a, TZero))
+	case "real":
+		v := arg(0)
+		if v.T().Sort == SReal {
+			return v
+		}
+		return Val{Typ: types.Typ[types.Float64], C: []Term{app(SReal, "to_real", v.T())}}
+	case "isint":
+		v := arg(0).T()
+		return boolVal(Eq(v, app(SReal, "to_real", app(SInt, "to_int", v))))
+	case "truncdiv":
+		return intVal(x.truncDiv(arg(0).T(), arg(1).T()))
+	case "keccak":
+		return intVal(x.uf("keccak", []Sort{SInt}, SInt, arg(0).C[0]))
+	case "hashbytes":
+		return Val{Typ: types.NewSlice(types.Typ[types.Byte]), C: []Term{x.uf("hashbytes", []Sort{SInt}, SInt, arg(0).T()), IntLit(32)}}
+	case "sign":
+		return Val{Typ: types.NewSlice(types.Typ[types.Byte]), C: []Term{x.uf("sign", []Sort{SInt, SInt}, SInt, arg(0).C[0], arg(1).T()), IntLit(65)}}
+	case "hexenc":
+		return Val{Typ: types.Typ[types.String], C: []Term{x.uf("hexenc", []Sort{SInt}, SInt, arg(0).C[0])}}
+	case "ecrecover_ok":
+		return boolVal(x.uf("ecrecover_ok", []Sort{SInt, SInt}, SBool, arg(0).C[0], arg(1).C[0]))
+	case "bytes_eq":
+		return boolVal(x.uf("bytes_eq", []Sort{SInt, SInt}, SBool, arg(0).C[0], arg(1).C[0]))
+	case "bytesof":
+		f := x.decls.Fun("bytesof", []Sort{SInt}, SInt)
+		sv := arg(0)
+		return Val{Typ: types.NewSlice(types.Typ[types.Byte]), C: []Term{app(SInt, f, sv.T()), x.strlen(sv.T())}}
+	case "marshaled":
+		// marshaled(bytes, T): the message of type *T the byte slice was marshaled from
+		t := env.pkg.resolveType(n.TypeArg)
+		return Val{Typ: types.NewPointer(t), C: []Term{x.uf("srcmsg", []Sort{SInt}, SInt, arg(0).C[0])}}
 	case "once_done":
 		p := arg(0)
 		a := env.st.heapGet("once:"+p.prefix(), ArrSort(SBool))
